@@ -363,11 +363,11 @@ def install2(R: Registry):
         f"implies(header.msg_type != {ALL}, forall('m:Module', delivered[gid][m] <= 1))",
         "forall('m:Module', delivered[gid][m] >= 0)",
         "forall('m:Module', implies(delivered[gid][m] >= 1, old(is_sub(self, m, header.msg_type)) and elig(m, header.dest_mod_id) and (old(ready(self, m)) or m.is_logger)))",
-        "forall('j:Int', implies(0 <= j and j < n and ismod(self, subscribers[j]) and not subscribers[j].conn.closed and elig(subscribers[j], header.dest_mod_id) and (old(ready(self, subscribers[j])) or subscribers[j].is_logger), delivered[gid][subscribers[j]] >= 1))",
-        f"implies(header.msg_type != {ALL}, forall('j:Int', implies(n <= j and j < len(subscribers), delivered[gid][subscribers[j]] == 0)))",
+        "forall('j:Int', implies(0 <= j and j < idx and ismod(self, subscribers[j]) and not subscribers[j].conn.closed and elig(subscribers[j], header.dest_mod_id) and (old(ready(self, subscribers[j])) or subscribers[j].is_logger), delivered[gid][subscribers[j]] >= 1))",
+        f"implies(header.msg_type != {ALL}, forall('j:Int', implies(idx <= j and j < len(subscribers), delivered[gid][subscribers[j]] == 0)))",
         "implies(in_guard(header.msg_type), forall('m:Module', notice[gid][m] == 0))",
         "forall('m:Module', notice[gid][m] >= 0)",
-        "implies(not in_guard(header.msg_type), forall('j:Int', implies(0 <= j and j < n and elig(subscribers[j], header.dest_mod_id) and not subscribers[j].is_logger and not old(ready(self, subscribers[j])) and ismod(self, subscribers[j]) and not subscribers[j].conn.closed, notice[gid][subscribers[j]] >= 1)))",
+        "implies(not in_guard(header.msg_type), forall('j:Int', implies(0 <= j and j < idx and elig(subscribers[j], header.dest_mod_id) and not subscribers[j].is_logger and not old(ready(self, subscribers[j])) and ismod(self, subscribers[j]) and not subscribers[j].conn.closed, notice[gid][subscribers[j]] >= 1)))",
         # state
         "wfw(self) and table_shrinks(self) and subs_shrink(self) and departed(self) and stays_if_closed(self) and counts_monotone(self)",
         "self.wlist == old(self.wlist) and self.sending_traffic == old(self.sending_traffic)",
